@@ -18,6 +18,7 @@ def want(op):
 
 
 class C12(Prop):
+    named_errors = set()     # the statement names no error kind: errors agree by class
     pid = "C12"
     title = "resource tree traversal, lookup and reassembly reflect the stored directory"
     thm_modules = ["PeliteModel.Thm.C12", "PeliteModel.Thm.C12Find", "PeliteModel.Thm.ImageLayout"]
